@@ -460,7 +460,7 @@ func b09OptsFile() *b09N {
 		ext("google.protobuf.EnumValueOptions", b09Fld("o", "Cfg", "vcfg", 50001), b09Fld("o", "int32", "vi", 50002)),
 		ext("google.protobuf.ServiceOptions", b09Fld("o", "Cfg", "scfg", 50001)),
 		ext("google.protobuf.MethodOptions", b09Fld("o", "Cfg", "tcfg", 50001)),
-		ext("google.protobuf.ExtensionRangeOptions", b09Fld("o", "Cfg", "rcfg", 50001), b09Fld("o", "int32", "rgi", 50002)),
+		ext("google.protobuf.ExtensionRangeOptions", b09Fld("o", "Cfg", "rcfg", 50001), b09Fld("o", "int32", "rgi", 50002), b09Fld("r", "string", "rtags", 50003)),
 	}}
 }
 
@@ -1231,8 +1231,11 @@ func (g *b09Gen) fillMsg(fi int, pl *b09MsgPlan) *b09N {
 			}
 			rn.A = append(rn.A, strconv.Itoa(rg[0]), hi)
 		}
-		if g.r.Chance(1, 5) {
+		if g.r.Chance(1, 5) || len(mc.typ.ranges) > 1 && g.r.Chance(1, 2) {
 			rn.Opts = append(rn.Opts, "verification = UNVERIFIED")
+		}
+		if g.useOpts && len(mc.typ.ranges) > 1 && g.r.Chance(1, 2) {
+			rn.Opts = append(rn.Opts, `(b09o.rtags) = "t"`)
 		}
 		rn.Opts = append(rn.Opts, g.customList("range", 3)...)
 		decls = append(decls, rn)
